@@ -366,4 +366,39 @@ def resolveSingle (outType timex past future : Str) : List Value :=
   | none, some f => [mk f]
   | some p, some f => if p = f then [mk p] else [mk p, mk f]
 
+/-! ### periods: `__add_period_to_resolution` and `_date_time_resolution` for daterange / timerange / datetimerange
+slots. `mod` is the modifier string of the slot value (`''`/None = no modifier). -/
+
+def sBefore : Str := [98, 101, 102, 111, 114, 101]      -- 'before'
+def sAfter : Str := [97, 102, 116, 101, 114]            -- 'after'
+def sSince : Str := [115, 105, 110, 99, 101]            -- 'since'
+def sLate : Str := [101, 110, 100]                      -- 'end'   (TimeTypeConstants.LATE_MOD)
+def sEarly : Str := [115, 116, 97, 114, 116]            -- 'start' (TimeTypeConstants.EARLY_MOD)
+def sInvalidDate : Str := minValue                      -- Constants.INVALID_DATE_STRING = '0001-01-01'
+
+def endsWith (s p : Str) : Bool := p.length ≤ s.length && s.drop (s.length - p.length) = p
+
+/-- `__add_period_to_resolution(resolutions, start_type, end_type, mod, result)`: the (start, end) keys it writes.
+`start` / `stop` are `resolutions.get(...)` (None = `none`). Result: (start?, end?) where the inner option
+distinguishes "key written with value None" (the code writes `result[END] = end` even when `end` is None). -/
+def addPeriod (mod : Str) (start stop : Option Str) : Option (Option Str) × Option (Option Str) :=
+  if mod ≠ [] ∧ startsWith mod sBefore then
+    (none, some (if endsWith mod sLate then stop else start))
+  else if mod ≠ [] ∧ startsWith mod sAfter then
+    (some (if endsWith mod sEarly then start else stop), none)
+  else if mod = sSince then (some start, none)
+  else
+    match start, stop with
+    | some a, some b =>
+      if a = [] ∨ b = [] then (none, none)
+      else if startsWith a sInvalidDate ∨ startsWith b sInvalidDate then (none, none)
+      else (some (some a), some (some b))
+    | _, _ => (none, none)
+
+/-- the value a period slot contributes (one of past / future), or nothing -/
+def periodValue (outType timex mod : Str) (start stop : Option Str) : Option Value :=
+  match addPeriod mod start stop with
+  | (none, none) => none
+  | (s, e) => some ⟨outType, timex, none, s.join, e.join⟩
+
 end RTV.WF
